@@ -127,6 +127,28 @@ def check(P, rep):
     include_rules(P, rep, 'C04.R6', 'c10', lambda o: o['rule'] in ('C10.R1', 'C10.R2', 'C10.R3', 'C10.R5', 'C10.R6', 'C10.R7', 'FLOOR') and 'encode' not in (o.get('key') or o['what']),
                   'delivered payloads are decoded strictly and only well-formed messages (amount < 2^127, supported types, exact lengths) are acted on', 30)
     storage_classes(P, rep, 'C04.R2', CN, {'TrustedChain': 'persistent', 'TokenIdConfigKey': 'persistent', 'Gateway': 'instance', 'ItsHubAddress': 'instance'})
+    # "currently trusted origin chain": the trust set changes exactly as its two admin entries say and is_trusted_chain reports presence
+    for en, kind in (('set_trusted_chain', 'sw'), ('remove_trusted_chain', 'sr')):
+        if en not in c.entries:
+            rep.floor('ITS entry ' + en, 0, 1)
+            continue
+        gt = P.graph(CN, en)
+        es = [e for e in state_effects(gt) if e.kind == kind and key_variant(e.key)[0] == 'TrustedChain' and core(key_variant(e.key)[1][0]) == gt.P(1)]
+        rep.check(bool(es) and gt.success_needs([e.node for e in es]), 'C04.R2', '%s:effective' % en,
+                  '%s really %s TrustedChain(chain) before every success exit' % (en, 'sets' if kind == 'sw' else 'removes'), entry_id(gt))
+    for cn_, en_ in P.all_entries():
+        if cn_ != CN:
+            continue
+        ge = P.graph(cn_, en_)
+        for e in state_effects(ge):
+            if e.kind in ('sw', 'sr', 'supd') and key_variant(e.key)[0] == 'TrustedChain':
+                rep.check((e.kind, en_) in (('sw', 'set_trusted_chain'), ('sr', 'remove_trusted_chain')), 'C04.R2', '%s:trusted-chain-writer' % en_,
+                          'TrustedChain(_) is set only by set_trusted_chain and removed only by remove_trusted_chain', esite(ge, e), e.describe()[:120])
+    if 'is_trusted_chain' in c.entries:
+        gq = P.graph(CN, 'is_trusted_chain')
+        rts = ret_terms(gq)
+        rep.check(bool(rts) and all(r[0] == 'shas' and r[1] == 'persistent' and key_variant(r[2])[0] == 'TrustedChain' and core(key_variant(r[2])[1][0]) == gq.P(1) for r in rts),
+                  'C04.R2', 'is_trusted_chain:presence', 'is_trusted_chain returns presence of TrustedChain(chain)', entry_id(gq))
     trys = [e for e in effects(g) if e.kind in ('xcall', 'invoke') and e.try_]
     rep.check(not trys, 'C04.R5', 'execute:no-try-calls', 'no non-trapping (try_) cross-contract call', entry_id(g), '; '.join(x.describe() for x in trys)[:200])
     rep.check(bool(tr) and g.success_needs((), edges(tr)), 'C04.R1', 'execute:success-needs-validation', 'every success exit lies behind the successful validation', entry_id(g))
